@@ -354,28 +354,20 @@ theorem unparsable_retry_after_uses_backoff (bo : Backoffs) (enforce : Bool) (sc
   rw [hv] at hv'; injection hv' with _ hra; subst hra
   exact ⟨b, by simpa using hb, by simpa [effDelay] using hgap⟩
 
-/-! ### "never waiting less than a server-requested Retry-After" — against what the server SENT
+/-! ### "never waiting less than a server-requested Retry-After" — against what the server SENT -/
 
-  Full statement (FALSE of the code, see the three witnesses):
-    ∀ script j a r q, a.fault = .http r → requested r = some q → next attempt exists → q ≤ gap.
-  It fails for (F5) fractional delay-seconds — `int(float("2.5")) = 2`; (F4) a header spelled
-  `retry-after` — the lookup is case-sensitive after `dict(response.headers)`; and, by design and as
-  documented (docs/configuration.rst: "When the API server responds with HTTP 429 …"), for a
-  Retry-After on any status other than 429. The `_partial` theorem carries exactly these guards. -/
-
-/-- the guard: status 429, the header (if any) spelled `Retry-After`, whole seconds -/
-def HonouredForm (r : Resp) : Prop :=
-  r.status = 429 ∧ (∀ h, r.hdr ≠ .otherCase h) ∧ (∀ h, r.hdr = .secs h → truncSec h = h) ∧
-  (r.hdr = .absent → ∀ d, r.detRA = some d → truncSec d = d)
-
-theorem gap_ge_requested_partial (bo : Backoffs) (enforce : Bool) (script : List Att) (t : Int)
+/-- For a 429, whatever the server asked for — delay-seconds with or without a fraction, under any
+    spelling of the header name, an HTTP-date, or the body's `retryAfterSeconds` — the next attempt,
+    whenever there is one, starts no earlier than that (F4 fixed in aac39f2, F5 in e640e5e, the date
+    form in dee5a41/19d7f3b). No guard besides the status: for other statuses a Retry-After is ignored,
+    by design and as documented (see `retry_after_on_5xx_ignored_witness`). -/
+theorem gap_ge_requested (bo : Backoffs) (enforce : Bool) (script : List Att) (t : Int)
     (j : Nat) (tj tj' : Int) (a : Att) (r : Resp) (q : Int)
     (h0 : (request bo enforce script t).times[j]? = some tj)
     (h1 : (request bo enforce script t).times[j + 1]? = some tj')
-    (ha : script[j]? = some a) (hf : a.fault = .http r) (hform : HonouredForm r)
+    (ha : script[j]? = some a) (hf : a.fault = .http r) (h429 : r.status = 429)
     (hq : requested r = some q) :
     q ≤ tj' - (tj + a.lat) := by
-  obtain ⟨h429, hcase, hsecs, hdet⟩ := hform
   have key : ∃ ra, retryAfter r = some ra ∧ q ≤ ra := by
     unfold requested at hq
     unfold retryAfter
@@ -391,14 +383,18 @@ theorem gap_ge_requested_partial (bo : Backoffs) (enforce : Bool) (script : List
           simp only [hd] at hq ⊢
           by_cases hz : d ≠ 0
           · rw [if_pos hz] at hq; rw [if_pos hz]
-            have := hdet hh d hd
-            exact ⟨truncSec d, rfl, by injection hq with hq; omega⟩
+            have := (ceilSec_ge d).1
+            exact ⟨ceilSec d, rfl, by injection hq with hq; omega⟩
           · rw [if_neg hz] at hq; cases hq
       · simp [hp] at hq
     | secs h =>
       simp only [hh] at hq ⊢
-      have := hsecs h hh
-      exact ⟨truncSec h, rfl, by injection hq with hq; omega⟩
+      have := (ceilSec_ge h).1
+      exact ⟨ceilSec h, rfl, by injection hq with hq; omega⟩
+    | otherCase h =>
+      simp only [hh] at hq ⊢
+      have := (ceilSec_ge h).1
+      exact ⟨ceilSec h, rfl, by injection hq with hq; omega⟩
     | date d =>
       simp only [hh] at hq ⊢
       have := (ceilSec_ge d).1
@@ -407,22 +403,69 @@ theorem gap_ge_requested_partial (bo : Backoffs) (enforce : Bool) (script : List
       split at hq <;> split <;> omega
     | garbage => simp [hh] at hq
     | overflow => simp [hh] at hq
-    | otherCase h => exact absurd hh (hcase h)
   obtain ⟨ra, hra, hle⟩ := key
   have := gap_ge_retry_after bo enforce script t j tj tj' a r ra h0 h1 ha hf h429 hra
   omega
 
-/-- negation witness (F5): the server asked for 2.5 s, the next attempt came after 2 s -/
-theorem fractional_delay_truncated_witness :
-    ∃ (r : Resp) (q tj tj' : Int), r.status = 429 ∧ requested r = some q ∧
-      (request (ofList [0]) false [⟨.http r, 0⟩] 0).times = [tj, tj'] ∧ tj' - tj < q :=
-  ⟨⟨429, .secs 2560, .empty, none⟩, 2560, 0, 2048, rfl, rfl, by decide, by decide⟩
+/-- … and never a whole second more than asked, unless the backoff is longer: the value the loop
+    works with is the request rounded up to whole seconds -/
+theorem requested_rounded_up (r : Resp) (q : Int) (hq : requested r = some q) (hg : ∀ d, r.hdr ≠ .date d) :
+    ∃ ra, retryAfter r = some ra ∧ q ≤ ra ∧ ra < q + tickPerSec := by
+  unfold requested at hq
+  unfold retryAfter
+  cases hh : r.hdr with
+  | absent =>
+    simp only [hh] at hq ⊢
+    unfold detailsRA
+    by_cases hp : r.payload = .statusJson
+    · simp only [hp, if_true] at hq ⊢
+      cases hd : r.detRA with
+      | none => simp [hd] at hq
+      | some d =>
+        simp only [hd] at hq ⊢
+        by_cases hz : d ≠ 0
+        · rw [if_pos hz] at hq; rw [if_pos hz]
+          have := ceilSec_ge d
+          exact ⟨ceilSec d, rfl, by injection hq with hq; omega, by injection hq with hq; omega⟩
+        · rw [if_neg hz] at hq; cases hq
+    · simp [hp] at hq
+  | secs h =>
+    simp only [hh] at hq ⊢
+    have := ceilSec_ge h
+    exact ⟨ceilSec h, rfl, by injection hq with hq; omega, by injection hq with hq; omega⟩
+  | otherCase h =>
+    simp only [hh] at hq ⊢
+    have := ceilSec_ge h
+    exact ⟨ceilSec h, rfl, by injection hq with hq; omega, by injection hq with hq; omega⟩
+  | date d => exact absurd hh (hg d)
+  | garbage => simp [hh] at hq
+  | overflow => simp [hh] at hq
 
-/-- negation witness (F4): `retry-after: 5` (lower case) with a 1 s backoff: retried after 1 s -/
-theorem other_case_header_ignored_witness :
-    ∃ (r : Resp) (q tj tj' : Int), r.status = 429 ∧ requested r = some q ∧
-      (request (ofList [1024]) false [⟨.http r, 0⟩] 0).times = [tj, tj'] ∧ tj' - tj < q :=
-  ⟨⟨429, .otherCase 5120, .empty, none⟩, 5120, 0, 1024, rfl, rfl, by decide, by decide⟩
+/-- F5 repaired, positively: any fractional request is served in full — `Retry-After: 2.5` on a zero
+    backoff is the instance in the examples below (waits 3 s) -/
+theorem fractional_delay_rounded_up (bo : Backoffs) (enforce : Bool) (script : List Att) (t : Int)
+    (j : Nat) (tj tj' : Int) (a : Att) (r : Resp) (h : Int)
+    (h0 : (request bo enforce script t).times[j]? = some tj)
+    (h1 : (request bo enforce script t).times[j + 1]? = some tj')
+    (ha : script[j]? = some a) (hf : a.fault = .http r) (h429 : r.status = 429)
+    (hh : r.hdr = .secs h ∨ (r.hdr = .absent ∧ r.payload = .statusJson ∧ r.detRA = some h ∧ h ≠ 0)) :
+    h ≤ tj' - (tj + a.lat) ∧ ceilSec h ≤ tj' - (tj + a.lat) := by
+  have hra : retryAfter r = some (ceilSec h) := by
+    rcases hh with hh | ⟨hh, hp, hd, hz⟩
+    · simp [retryAfter, hh]
+    · simp [retryAfter, hh, detailsRA, hp, hd, hz]
+  have := gap_ge_retry_after bo enforce script t j tj tj' a r _ h0 h1 ha hf h429 hra
+  have := (ceilSec_ge h).1
+  omega
+
+/-- F4 repaired, positively: a delay sent as `retry-after` (any capitalisation) is honoured exactly
+    like one sent as `Retry-After` — the loop behaves identically on the two responses. -/
+theorem other_case_header_honoured (r : Resp) (h : Int) (hh : r.hdr = .otherCase h) :
+    retryAfter r = retryAfter { r with hdr := .secs h } ∧
+    verdict (.http r) = verdict (.http { r with hdr := .secs h }) := by
+  have h1 : retryAfter r = retryAfter { r with hdr := .secs h } := by simp [retryAfter, hh]
+  refine ⟨h1, ?_⟩
+  simp only [verdict, h1]
 
 /-- by design (documented: 429 only): `503` + `Retry-After: 10` with a 1 s backoff: retried after 1 s -/
 theorem retry_after_on_5xx_ignored_witness :
@@ -441,7 +484,10 @@ example : AllTransient [⟨.http ⟨403, .absent, .empty, none⟩, 0⟩, ⟨.exc
   intro a ha; simp at ha; rcases ha with rfl | rfl
   · exact ⟨.forbidden, none, by decide⟩
   · exact ⟨.timeout, none, by decide⟩
-example : retryAfter ⟨429, .secs 2560, .text, none⟩ = some 2048 := by decide   -- "2.5" → int(float()) = 2 s
+example : retryAfter ⟨429, .secs 2560, .text, none⟩ = some 3072 := by decide   -- "2.5" → ceil(float()) = 3 s
+example : (request (ofList [0]) false [⟨.http ⟨429, .secs 2560, .empty, none⟩, 0⟩] 0).times = [0, 3072] := by decide
+example : (request (ofList [1024]) false [⟨.http ⟨429, .otherCase 5120, .empty, none⟩, 0⟩] 0).times = [0, 5120] := by decide
+example : (request (ofList [0]) false [⟨.http ⟨429, .absent, .statusJson, some 1536⟩, 0⟩] 0).times = [0, 2048] := by decide
 example : retryAfter ⟨429, .date (-700), .text, none⟩ = some 0 := by decide      -- a date in the past: max(0, …)
 example : retryAfter ⟨429, .garbage, .statusJson, some 5120⟩ = none := by decide -- details not consulted
 example : retryAfter ⟨429, .absent, .statusJson, some 0⟩ = none := by decide      -- retryAfterSeconds: 0 is falsy
